@@ -60,11 +60,11 @@ def parseMethod (srcs : Array Src) (K : Nat) (tok : String) : Option (Method Ev)
     some (maskMethod K (fun k e => inDecBand (srcs.getD k default).dec δ e.dec))
   | ["ra", d] =>
     let δ := pF d
-    some (maskMethod K (fun k e => inRABand (srcs.getD k default).ra (srcs.getD k default).dec δ e.ra))
+    some (maskMethod K (fun k e => inRABandCap (Gen.C05.raBandCap : Float) (srcs.getD k default).ra (srcs.getD k default).dec δ e.ra))
   | ["box", d] =>
     let δ := pF d
     some (boxMethod Gen.C05.batchSize K
-      (fun k e => decide (raDistBox (srcs.getD k default).ra e.ra < dRAhalf (srcs.getD k default).dec δ))
+      (fun k e => inBoxRaCap (Gen.C05.boxCap : Float) (srcs.getD k default).ra (srcs.getD k default).dec δ e.ra)
       (fun k e => inDecBand (srcs.getD k default).dec δ e.dec))
   | ["all"] => some (allMethod K)
   | ["psifunc"] => some (psiFuncMethod (fun e => psiFunc e.psi e.fval))
